@@ -10,11 +10,13 @@ import (
 // scripts are programmatic nemeses: they react to the state of the cluster
 // (who is leader) instead of following a fixed timetable.
 var scripts = map[string]func(rn *Runner){
-	"fig8x":    scriptFig8x,
-	"cfgtrunc": scriptCfgTrunc,
-	"snapcfg":  scriptSnapCfg,
-	"xfervote": scriptXferVote,
-	"snapterm": scriptSnapTerm,
+	"fig8x":     scriptFig8x,
+	"cfgtrunc":  scriptCfgTrunc,
+	"snapcfg":   scriptSnapCfg,
+	"xfervote":  scriptXferVote,
+	"snapterm":  scriptSnapTerm,
+	"cfggate":   scriptCfgGate,
+	"cfgquorum": scriptCfgQuorum,
 }
 
 func (rn *Runner) el() time.Duration {
@@ -404,4 +406,138 @@ func scriptSnapTerm(rn *Runner) {
 		rn.applyBurst(C, 2, "t3")
 		time.Sleep(2 * rn.el())
 	}
+}
+
+// slowAll delays every request between every pair of servers by d (0 = back to normal).
+func (rn *Runner) slowAll(d time.Duration) {
+	for _, x := range rn.C.Nodes {
+		for _, y := range rn.C.Nodes {
+			if x != y {
+				rn.C.Net.SetLinkDelay(x.name, y.name, d)
+			}
+		}
+	}
+}
+
+// waitNewLeader polls every millisecond for a leader other than `not`.
+func (rn *Runner) waitNewLeader(not *Node, among map[*Node]bool, ms int) *Node {
+	for i := 0; i < ms; i++ {
+		for _, nd := range rn.C.Leaders() {
+			if nd != not && (among == nil || among[nd]) {
+				return nd
+			}
+		}
+		time.Sleep(time.Millisecond)
+	}
+	return nil
+}
+
+// scriptCfgGate: the leader disappears, every request takes a while on the wire, and the next
+// leader is asked for a membership change in the instant it is elected: its own no-op cannot be
+// committed yet, so the change has to wait.
+func scriptCfgGate(rn *Runner) {
+	c := rn.C
+	hb := time.Duration(rn.Sc.P.HeartbeatMs) * time.Millisecond
+	for round := 0; round < 4; round++ {
+		L := rn.waitLeader(nil, 30)
+		if L == nil {
+			return
+		}
+		time.Sleep(rn.el())
+		if L = rn.waitLeader(nil, 30); L == nil {
+			return
+		}
+		rn.applyBurst(L, 1+rn.rng.Intn(3), "g")
+		time.Sleep(2 * hb)
+		rn.slowAll(hb / 2)
+		uncommitted := rn.rng.Intn(3) == 0
+		if uncommitted {
+			// the next leader inherits entries that are not committed yet
+			rn.applyBurst(L, 2, "u")
+			time.Sleep(hb / 4)
+		}
+		if rn.rng.Intn(2) == 0 {
+			c.Crash(L)
+		} else {
+			rn.cutOff(L)
+		}
+		N := rn.waitNewLeader(L, nil, 20*rn.Sc.P.ElectionMs)
+		if N == nil {
+			rn.note("no new leader")
+			c.Net.Heal()
+			c.Start(L)
+			continue
+		}
+		// a target other than the new leader
+		var tgt *Node
+		for _, nd := range c.Nodes {
+			if nd != N && (tgt == nil || rn.rng.Intn(2) == 0) {
+				tgt = nd
+			}
+		}
+		op := pick(rn.rng, "remove", "demote", "addnonvoter", "addvoter")
+		rn.note("new leader %s asked to %s %s at once (uncommitted tail: %v)", N.name, op, tgt.name, uncommitted)
+		rn.bg(func() { c.Membership(91, N, op, tgt, 0, 3*hb) })
+		time.Sleep(4 * hb)
+		c.Net.Heal()
+		c.Start(L)
+		time.Sleep(3 * rn.el())
+	}
+}
+
+// scriptCfgQuorum: four voters {O, A, B, V}. O is cut off and appends "remove A" to its own log only.
+// A or B wins the next term with V's vote, but V's log store fails, so nothing the new leader sends
+// is stored on V; asked to remove O at once, a leader that does not wait for its own no-op commits
+// the removal with A and B alone (2 of {A, B, V}) and acknowledges it and a write. Then only O and V
+// can talk: O wins with V's vote under its own configuration {O, B, V} and overwrites what was
+// acknowledged. With the gate in place the second leader's no-op needs 3 of {O, A, B, V}, which it
+// cannot get, and nothing is acknowledged.
+func scriptCfgQuorum(rn *Runner) {
+	c := rn.C
+	hb := time.Duration(rn.Sc.P.HeartbeatMs) * time.Millisecond
+	O := rn.waitLeader(nil, 30)
+	if O == nil {
+		return
+	}
+	time.Sleep(rn.el())
+	if O = rn.waitLeader(nil, 30); O == nil {
+		return
+	}
+	var rest []*Node
+	for _, nd := range c.Nodes {
+		if nd != O {
+			rest = append(rest, nd)
+		}
+	}
+	if len(rest) != 3 {
+		return
+	}
+	rn.rng.Shuffle(3, func(i, j int) { rest[i], rest[j] = rest[j], rest[i] })
+	A, B, V := rest[0], rest[1], rest[2]
+	rn.note("O=%s A=%s B=%s V=%s", O.name, A.name, B.name, V.name)
+	rn.applyBurst(O, 2, "q")
+	time.Sleep(2 * hb)
+	rn.cutOff(O)
+	rn.bg(func() { c.Membership(91, O, "remove", A, 0, 2*hb) })
+	time.Sleep(hb / 2)
+	V.disk.FailAfter("store", 0)
+	ab := map[*Node]bool{A: true, B: true}
+	N := rn.waitNewLeader(O, ab, 20*rn.Sc.P.ElectionMs)
+	if N == nil {
+		rn.note("neither A nor B won")
+		V.disk.Disarm()
+		c.Net.Heal()
+		return
+	}
+	rn.bg(func() { c.Membership(91, N, "remove", O, 0, 3*hb) })
+	time.Sleep(2 * hb)
+	rn.applyBurst(N, 2, "w")
+	time.Sleep(3 * hb)
+	// now only O and V can talk
+	V.disk.Disarm()
+	c.Net.Heal()
+	rn.cutGroups(map[*Node]bool{O: true, V: true})
+	time.Sleep(6 * rn.el())
+	c.Net.Heal()
+	time.Sleep(4 * rn.el())
 }
